@@ -444,7 +444,9 @@ fn records(section: &str, tier: Tier) -> Vec<String> {
             kv("SliderTickRate", &num_classes(tier, &["0.49", "0.5", "8", "8.01"]));
         }
         "Events" => {
-            for t in ["0", "Background", "1", "Video", "4", "Sprite", "2", "Break", "3", "5", "Sample", "6", "7", "", "background"] {
+            for t in ["0", "Background", "1", "Video", "4", "Sprite", "2", "Break", "3", "5", "Sample", "6", "7", "", "background",
+                // other spellings of the numbers: the kind is matched as a token, not parsed as a number
+                "00", "+0", "+1", "02", "+2", "+4", "1.0", "-0"] {
                 for rest in [
                     "0,\"bg.jpg\",0,0",
                     "0,\"v.mp4\"",
